@@ -78,7 +78,7 @@ func collectValues(x interface{}, acc []interface{}) []interface{} {
 }
 
 // retype produces a Go-typed variant of a JSON value: core.Map for maps,
-// []string for non-empty all-string arrays, int / int64 for integral numbers
+// []string for all-string arrays (empty ones become empty typed slices), int / int64 for integral numbers
 // (anywhere, also inside arrays), as selected by the bits of mask.
 type retyper struct {
 	mask int
@@ -107,6 +107,17 @@ func (r *retyper) value(x interface{}, mapValue bool) interface{} {
 		}
 		return n
 	case A:
+		if len(v) == 0 && r.bit() {
+			// an empty Go-typed slice is still an (empty) array
+			switch r.site % 3 {
+			case 0:
+				return []string{}
+			case 1:
+				return []core.Map{}
+			default:
+				return []int{}
+			}
+		}
 		allStr := len(v) > 0
 		for _, y := range v {
 			if _, ok := y.(string); !ok {
